@@ -65,6 +65,11 @@ theorem dec_np (c : Cfg) (hc : c.checked = true) : (t : JTy) → ∀ j, dec c t 
   | .pharr key, j => by
     cases j <;> simp only [dec] <;> try exact bad_np c hc
     split <;> first | exact ofBool_np _ | exact bad_np c hc
+  | .ohex key mn mx, j => by
+    cases j <;> simp only [dec] <;> try exact bad_np c hc
+    split
+    · split <;> first | exact ofBool_np _ | simp
+    · exact bad_np c hc
   | .sl mn mx e, j => by
     cases j <;> simp only [dec] <;> try exact bad_np c hc
     rename_i xs
@@ -140,6 +145,7 @@ theorem decEmb_np (c : Cfg) (hc : c.checked = true) : (t : JTy) → ∀ kvs, dec
   | .hex _ _, _ => by simp [decEmb]
   | .harr, _ => by simp [decEmb]
   | .pharr _, _ => by simp [decEmb]
+  | .ohex _ _ _, _ => by simp [decEmb]
   | .sl _ _ _, _ => by simp [decEmb]
   | .arr _ _, _ => by simp [decEmb]
   | .map _ _ _ _, _ => by simp [decEmb]
